@@ -1,9 +1,16 @@
 """C04 - threshold RDP keeps a segment only if it fits and splits only where it must.
 M: MC_Rdp (OutputExplainable: the machine's output is explainable by its own oracle, every oracle, n<=7).
-T: rdp.rdp results + class/far tables from the library's primitives judged by ExplainClause (Trace_Simplify)."""
+T: rdp.rdp results + class/far tables from the library's primitives judged by ExplainClause (Trace_Simplify).
+T (scale): production-size curves (10^3..10^5 points, nestings hundreds to thousands of ranges deep); the result is judged by
+   Trace_ExplainScale from a certificate of the same predicate with SPARSE tables (all adjacent pairs + the ranges of the
+   derivation), see the SCALE section below."""
+import hashlib
+import heapq
+import random
+
 import numpy as np
 
-from harness import curves, numeric, oracles, par, simpl, static_cases
+from harness import curves, monitor, numeric, oracles, par, scale, simpl, static_cases, tlc
 
 KMAX = 40
 
@@ -93,21 +100,537 @@ def _selftests():
     return out
 
 
+# ====================================================================================================== SCALE
+# Production-size inputs.  A change that is invisible on short curves (a bounded work stack, a 16-bit index, a block seam, a
+# strided cost above a size threshold) only shows on long ranges or deep nestings, so this family replays
+#   * DEEP one-sided nestings (hundreds to thousands of ranges pending at once): decreasing staircases whose steps grow to
+#     the right (and their mirror images), zigzags / spike trains / sawteeth of growing amplitude, and
+#   * LONG production-like curves (miss-ratio-like, convex piecewise-linear, valleys, staircases, jittered lines, exact
+#     elbows) at sizes just above 2^10 .. 10^5 (scale.sizes),
+# x 5 metrics x 2 distances x tight / loose thresholds x thresholds harvested from the cost of ranges the walk itself
+# visits (exact ties on ranges of thousands of points) x 3 abscissa layouts (unit, dyadic fraction, ragged steps).
+# Judging: ExplainClause needs k^2 table entries and recurses as deep as the nesting; at this size the harness builds a
+# CERTIFICATE of the same predicate (a complete, memoised search that mirrors ExplainClause, including ties between several
+# retained farthest points) with oracle values only for the ranges the derivation mentions plus ALL adjacent pairs, and
+# Trace_ExplainScale checks every node of it locally.  Certificates larger than NODECAP nodes keep their largest ranges
+# (and any failing path) and leave the rest OPEN (only their leaves are judged).
+NODECAP_QUICK, NODECAP_THOROUGH = 4000, 12000
+LONG, WALL = 20000, 120
+CLS = {"accept": 0, "reject": 1, "nan": 2}
+TIGHT = {"smape": 0.001, "rpd": 0.001, "rmspe": 0.001, "rmsle": 0.001, "r2": 0.9999}
+LOOSE = {"smape": 0.02, "rpd": 0.02, "rmspe": 0.1, "rmsle": 0.02, "r2": 0.99}
+
+
+def _stairs_n(K, w0, g):
+    return 1 + K * w0 + g * K * (K - 1) // 2
+
+
+def _stairs_K(n, w0, g):
+    """the largest K with _stairs_n(K, w0, g) <= n"""
+    K = int((-(2 * w0 - g) + ((2 * w0 - g) ** 2 + 8.0 * g * (n - 1)) ** 0.5) / (2.0 * g))
+    while _stairs_n(K + 1, w0, g) <= n:
+        K += 1
+    while K > 2 and _stairs_n(K, w0, g) > n:
+        K -= 1
+    return K
+
+
+def _deep_stairs(K, w0=4, g=1, slope=0.02):
+    """Decreasing staircase (1000 -> 100) with K steps; step k is w0 + g*k points wide and drops in proportion to its width
+    (a miss-ratio curve with growing working sets), plateaus slightly sloped.  Threshold RDP peels one step at a time from
+    the right: one more range stays pending per retained index (about 1.5 K .. 2 K pending at once at the tight thresholds)."""
+    w = [w0 + g * k for k in range(K)]
+    n = sum(w) + 1
+    y = np.empty(n)
+    level, pos = 1000.0, 0
+    for k in range(K):
+        drop = 900.0 * w[k] / (n - 1.0)
+        y[pos:pos + w[k]] = level - slope * drop * np.arange(w[k]) / w[k]
+        pos += w[k]
+        level -= drop
+    y[pos] = level
+    return y
+
+
+def _sawtooth(n, K):
+    """K teeth of growing period and height on a slowly decreasing floor (non-monotone, one-sided)."""
+    K = max(2, min(K, (n - 1) // 6))
+    g = max(0.0, 2.0 * (n - 1 - K * 5) / (K * (K - 1.0)))
+    w = [5 + int(g * k) for k in range(K)]
+    w[-1] += (n - 1) - sum(w)
+    y = np.empty(n)
+    pos = 0
+    for k in range(K):
+        h = 4.0 + 2.0 * k
+        y[pos:pos + w[k]] = 50.0 + h * np.arange(w[k]) / w[k]
+        pos += w[k]
+    y[pos] = 50.0
+    return y + 0.25 * (n - np.arange(n)) / n
+
+
+def build(recipe):
+    """Deterministic (n, 2) C-contiguous float64 curve, strictly increasing x, from a JSON-able recipe."""
+    sh, n = recipe["shape"], int(recipe["n"])
+    rng = random.Random(recipe.get("seed", 0))
+    K = int(recipe.get("K", 0))
+    if sh == "deep_stairs":
+        y = _deep_stairs(K, w0=int(recipe["w0"]), g=int(recipe["g"]), slope=float(recipe.get("slope", 0.02)))
+        assert len(y) == n
+    elif sh == "sawtooth":
+        y = _sawtooth(n, K)
+    elif sh == "zigzag":
+        y = scale.zigzag(n)[:, 1] + 1.0
+    elif sh == "spikes":
+        y = scale.spikes(n, period=int(recipe.get("period", 4)))[:, 1] + 1.0
+    elif sh == "mrc":
+        y = scale.mrc(n, rng, knees=max(2, K))[:, 1] + 1.0
+    elif sh == "convex_pl":
+        y = scale.convex_pl(n, max(1, K))[:, 1]
+    elif sh == "valley":
+        y = scale.valley(n, rng)[:, 1]
+    elif sh == "staircase":
+        y = scale.staircase(n, max(2, K), rng=rng, grow=bool(recipe.get("grow")))[:, 1]
+    elif sh == "jitter_line":
+        ln = min(int(recipe.get("len", 200)), max(8, n // 10))    # a SHORT jittered window: the result stays small
+        a = rng.randrange(n // 8, n - n // 8 - ln)
+        y = scale.jitter_line(n, a, a + ln, float(recipe.get("amp", 8.0)), slope=-800.0 / n)[:, 1]
+    elif sh == "elbow":
+        y = scale.elbow(n, int(recipe["corner"]), -0.5, -0.015625)[:, 1]
+        y = y - y.min() + 1.0
+    else:
+        raise ValueError(sh)
+    if recipe.get("mirror"):
+        y = y[::-1]
+    xm = recipe.get("x", "unit")
+    if xm == "unit":
+        x = np.arange(n, dtype=float)
+    elif xm == "quarter":
+        x = 3.0 + 0.25 * np.arange(n, dtype=float)
+    else:                                     # ragged: steps 1, 1, 2, 7, ...
+        x = np.concatenate([[0.0], np.cumsum(scale.tile([1.0, 1.0, 2.0, 7.0], n - 1))])
+    return np.ascontiguousarray(np.column_stack([x, np.asarray(y, float)]))
+
+
+def _digest(P):
+    return hashlib.sha256(np.ascontiguousarray(P).tobytes()).hexdigest()[:16]
+
+
+def _search(k, leaf_ok, tab, max_evals):
+    """Complete memoised search for a derivation of ExplainClause over positions 1..k (same semantics, including the
+    choice among several retained farthest points; on failure the first candidate is kept, as CHOOSE would).
+    tab(p, q) -> (class, [retained positions strictly inside that are farthest points]).  Iterative: nestings are deep.
+    Returns (ok, info) with info[(p, q)] = [class, far, chosen m, candidate cursor], or None when over budget."""
+    ok, info = {}, {}
+    evals = 0
+    stack = [(1, k)]
+    while stack:
+        p, q = stack[-1]
+        if (p, q) in ok:
+            stack.pop()
+            continue
+        if q == p + 1:
+            ok[(p, q)] = leaf_ok(p)
+            stack.pop()
+            continue
+        nd = info.get((p, q))
+        if nd is None:
+            evals += 1
+            if evals > max_evals:
+                return None
+            c, F = tab(p, q)
+            nd = info[(p, q)] = [c, F, 0, 0]
+            if c == CLS["accept"] or not F:
+                ok[(p, q)] = False
+                stack.pop()
+                continue
+        F = nd[1]
+        while True:
+            m = F[nd[3]]
+            left = ok.get((p, m))
+            if left is None:
+                stack.append((p, m))
+                break
+            if left:
+                right = ok.get((m, q))
+                if right is None:
+                    stack.append((m, q))
+                    break
+                if right:
+                    ok[(p, q)] = True
+                    nd[2] = m
+                    stack.pop()
+                    break
+            nd[3] += 1
+            if nd[3] == len(F):
+                ok[(p, q)] = False
+                nd[2] = F[0]
+                stack.pop()
+                break
+    return ok, info
+
+
+def _emit(S, ok, info, nodecap):
+    """The certificate as a list of nodes [p, q, m, l, r, class, far] (see Trace_ExplainScale): largest ranges first, a
+    failing path always, at most ~nodecap expanded nodes; what is not expanded is OPEN (m = -1)."""
+    k = len(S)
+    if k <= 2:
+        return [], {"expanded": 0, "open": 0}
+    order = []
+    ids = {}
+    heap = [(1 if ok.get((1, k), True) else 0, -(S[k - 1] - S[0]), 1, k)]
+    expanded = nopen = 0
+    while heap:
+        pri, _, p, q = heapq.heappop(heap)
+        ids[(p, q)] = len(order) + 1
+        nd = info.get((p, q))
+        if nd is None or (p, q) not in ok or (pri == 1 and expanded >= nodecap):
+            order.append([p, q, -1, 0, 0, 2, []])
+            nopen += 1
+            continue
+        expanded += 1
+        c, F, m = nd[0], nd[1], nd[2]
+        order.append([p, q, m, (p, m), (m, q), c, F])
+        if m > 0:
+            for a, b in ((p, m), (m, q)):
+                if b > a + 1:
+                    heapq.heappush(heap, (0 if ok.get((a, b)) is False else 1, -(S[b - 1] - S[a - 1]), a, b))
+    for nd in order:
+        if nd[2] > 0:
+            nd[3] = ids.get(nd[3], 0)
+            nd[4] = ids.get(nd[4], 0)
+        else:
+            nd[3] = nd[4] = 0
+    return order, {"expanded": expanded, "open": nopen}
+
+
+def _pending(k, info):
+    """largest number of ranges pending at once when the derivation is walked depth first, left child first (the library's
+    own work stack on the pinned tree)"""
+    stack, mx = [(1, k)], 1
+    while stack:
+        mx = max(mx, len(stack))
+        p, q = stack.pop()
+        nd = info.get((p, q))
+        if q > p + 1 and nd is not None and nd[2] > 0:
+            stack.append((nd[2], q))
+            stack.append((p, nd[2]))
+    return mx
+
+
+def _certify(cid, n, S, tab, adj, nodecap):
+    """-> (case for Trace_ExplainScale, stats) or (None, reason)"""
+    k = len(S)
+    leaf_ok = lambda p: S[p] - S[p - 1] <= 1 or adj[p - 1] in (0, 2)
+    r = _search(k, leaf_ok, tab, 8 * k + 2000)
+    if r is None:
+        return None, "tie-search-budget"
+    ok, info = r
+    nodes, st = _emit(S, ok, info, nodecap)
+    st.update(k=k, explained=bool(ok.get((1, k), True)), pending=_pending(k, info),
+              ties=sum(1 for nd in info.values() if len(nd[1]) > 1))
+    return {"id": cid, "n": n, "S": S, "adj": adj, "nodes": nodes}, st
+
+
+def _value(P, a, b, cost):
+    import kneeliverse.linear_fit as lf
+    pt = P[a:b + 1]
+    return float(getattr(lf, oracles.COST_PRIMITIVE[cost])(pt, lf.linear_fit_points(pt)))
+
+
+def _one_scale(cid, P, spec, nodecap):
+    """one call of rdp.rdp on a long curve + its certificate.  -> (case, stats) or (None, reason)"""
+    n = len(P)
+    # hang protection: simpl.call's defaults (quadratic total, 8n+64 per refinement loop) up to LONG points; beyond that a
+    # spinning loop would take minutes to reach its per-loop limit (every iteration costs O(n)), so the quadratic total is
+    # backed by a stop after WALL seconds of CPU time (the pinned tree needs < 2 s for any of these calls)
+    ev = simpl.call(P, spec) if n <= LONG else simpl.call(P, spec, budget=monitor.quad(n, 16), wall=WALL)
+    if ev["outcome"] != "returned":
+        return None, "outcome:" + ev["outcome"]
+    S = ev["reduced"]
+    if not (len(S) >= 2 and S[0] == 0 and S[-1] == n - 1 and all(S[j] < S[j + 1] for j in range(len(S) - 1))):
+        return None, "not-a-reduction"                                 # C01's domain
+    Sa = np.asarray(S)
+    t, cost = spec["t"], spec["cost"]
+    dist = oracles.dist_fn(spec["distance"])
+    eps = float(np.finfo(float).eps)
+    adj = [CLS[oracles.cost_class(P, S[j], S[j + 1], t, cost)] for j in range(len(S) - 1)]
+    probe = [0]
+
+    def tab(p, q):
+        a, b = S[p - 1], S[q - 1]
+        c = CLS[oracles.cost_class(P, a, b, t, cost)]
+        pt = P[a:b + 1]
+        d = np.asarray(dist(pt, pt[0], pt[-1]), float)
+        inner = d[1:-1]
+        if not np.all(np.isfinite(inner)):
+            return c, list(range(p + 1, q))                             # undefined distances: nothing is pinned
+        # the same noise class as oracles.far_set, restricted to the retained indices (vectorised: ranges are long)
+        sc = max(float(np.max(np.abs(pt - pt[0]))), 1e-300)
+        mx = float(inner.max())
+        tol = max(numeric.REL * mx, 1e-12 * sc, eps)
+        F = [p + 1 + int(j) for j in np.nonzero(d[Sa[p:q - 1] - a] >= mx - tol)[0]]
+        if probe[0] < 6 and b - a <= 3000:                              # machinery: agreement with the shared oracle
+            probe[0] += 1
+            ref = set(oracles.far_set(P, a, b, spec["distance"]))
+            if F != [x for x in range(p + 1, q) if S[x - 1] in ref]:
+                raise tlc.TLCFailure("C04 scale: vectorised far set differs from oracles.far_set on %s (%d, %d)" % (cid, a, b))
+        return c, F
+
+    case, st = _certify(cid, n, S, tab, adj, nodecap)
+    if case is not None:
+        st["steps"] = simpl.steps_of(ev)
+    return case, st
+
+
+def _tighter(t, cost):
+    return 1.0 - (1.0 - t) / 16.0 if cost == "r2" else t / 16.0
+
+
+def _record_scale(item):
+    """worker: builds the curve, replays the base call (deep shapes: tightened until the result is not the bare chord) and,
+    when asked, the calls at thresholds harvested from the cost of ranges the base derivation visits (exact ties on long
+    ranges).  -> list of (case | None, meta)"""
+    cid, recipe, spec, nodecap, harvest, tighten = item
+    P = build(recipe)
+    dg = _digest(P)
+    out = []
+
+    def run1(cid1, spec1):
+        case, st = _one_scale(cid1, P, spec1, nodecap)
+        out.append((case, {"recipe": recipe, "spec": spec1, "digest": dg, "n": len(P), "stats": st}))
+        return case
+
+    base = run1(cid, spec)
+    for k in range(tighten):
+        if base is None or len(base["S"]) > 8:
+            break
+        spec = dict(spec, t=_tighter(spec["t"], spec["cost"]))
+        base = run1("%s-t%d" % (cid, k), spec)
+    if harvest and base is not None:
+        rng = random.Random(harvest)
+        S = base["S"]
+        cand = [nd for nd in base["nodes"] if nd[2] != -1][:24]           # the largest ranges of the derivation
+        picks = cand[:1] + (rng.sample(cand[1:], min(2, len(cand) - 1)) if len(cand) > 1 else [])
+        seen = {spec["t"]}
+        for hi, nd in enumerate(picks):
+            v = _value(P, S[nd[0] - 1], S[nd[1] - 1], spec["cost"])
+            if not (np.isfinite(v) and v > 0 and (spec["cost"] != "r2" or v <= 1)) or v in seen:
+                continue
+            seen.add(v)
+            run1("%s-h%d" % (cid, hi), dict(spec, t=v))
+    return out
+
+
+def scale_items(ctx):
+    rng = ctx.rng
+    quick = ctx.quick
+    cap = NODECAP_QUICK if quick else NODECAP_THOROUGH
+    R = rng.randrange
+    recipes = []
+    # ---- deep one-sided nestings: (n, steps) just above the usual size thresholds.  Every run has results with more than
+    # 128, 256 and 1024 ranges pending at once; the thorough tier goes beyond 8192.
+    def stairs(target, gs, Kfix=None):
+        w0, g = rng.choice([3, 4, 6]), rng.choice(gs)
+        K = Kfix or _stairs_K(target, w0, g)
+        return {"shape": "deep_stairs", "n": _stairs_n(K, w0, g), "K": K, "w0": w0, "g": g, "slope": rng.choice([0.02, 0.02, 0.0, 0.1])}
+    cfg = [(10001 + R(1, 2500), (1,)), (16385 + R(1, 4000), (1, 2)), (32769 + R(1, 8000), (2, 3)), (65537 + R(1, 9000), (2, 3)),
+           (100001 + R(1, 9000), (1, 2))]
+    recipes.append((stairs(0, (1,), Kfix=100 + R(0, 30)), "deep"))                 # 5.3 .. 8.4 thousand points, >= 150 pending
+    for target, gs in (rng.sample(cfg, 2) if quick else cfg):
+        recipes.append((stairs(target, gs), "deep"))
+    recipes.append((dict(stairs(*rng.choice(cfg[:3])), mirror=True), "deep"))
+    for j, n in enumerate([257 + R(1, 200), 1025 + R(1, 700), 2049 + R(1, 2500)] if quick
+                          else [300, 1025 + R(1, 700), 2200, 4097 + R(1, 900), 8193 + R(1, 400)]):
+        recipes.append(({"shape": "zigzag", "n": n, "mirror": j != 1 and rng.random() < 0.3}, "deep"))
+    for n in ([1025 + R(1, 1200)] if quick else [700, 2049 + R(1, 900), 4097 + R(1, 900), 9000]):
+        recipes.append(({"shape": "spikes", "n": n, "period": rng.choice([3, 4, 5])}, "deep"))
+    for n, K in ([(4097 + R(1, 4000), 140)] if quick else [(3000, 90), (12000, 180), (40000, 300)]):
+        recipes.append(({"shape": "sawtooth", "n": n, "K": K + R(0, 30)}, "deep"))
+    # ---- long production-like curves at sizes just above 2^10 .. 10^5
+    sz = scale.sizes(ctx, lo=1000, hi=110000, k_quick=4, k_thorough=10)
+    long_shapes = [lambda n: {"shape": "mrc", "n": n, "K": R(4, 40), "seed": R(1 << 30)},
+                   lambda n: {"shape": "convex_pl", "n": n, "K": R(5, 400)},
+                   lambda n: {"shape": "valley", "n": n, "seed": R(1 << 30)},
+                   lambda n: {"shape": "staircase", "n": n, "K": R(20, 600), "seed": R(1 << 30), "grow": rng.random() < 0.5},
+                   lambda n: {"shape": "jitter_line", "n": n, "amp": rng.choice([2.0, 8.0, 32.0]), "len": R(64, 400), "seed": R(1 << 30)},
+                   lambda n: {"shape": "elbow", "n": n, "corner": R(n // 10, n - n // 10)}]
+    for n in sz:
+        for mk in (rng.sample(long_shapes, 3) if quick else long_shapes):
+            recipes.append((mk(n), "long"))
+    items = []
+    combos = [(c, d) for c in simpl.COSTS for d in simpl.DISTANCES]
+    for ri, (rc, fam) in enumerate(recipes):
+        # (the collinear staircase keeps its nesting under an affine change of x only)
+        rc["x"] = rng.choice(["unit", "quarter"] if rc["shape"] == "deep_stairs" else ["unit", "unit", "quarter", "ragged"])
+        if fam == "deep":
+            # every metric at its tight threshold (this is what makes every step a knee); both distances in the thorough tier
+            for c, d in ([(c, rng.choice(simpl.DISTANCES)) for c in simpl.COSTS] if quick else combos):
+                items.append(("s%d-%s-%s-%s" % (ri, rc["shape"], c, d), rc, {"f": "rdp", "t": TIGHT[c], "distance": d, "cost": c},
+                              cap, R(1, 1 << 30) if rng.random() < (0.4 if quick else 0.6) else 0, 3))
+        else:
+            for c, d in rng.sample(combos, 3 if quick else 6):
+                t = rng.choice([TIGHT[c], LOOSE[c], LOOSE[c]])
+                items.append(("s%d-%s-%s-%s" % (ri, rc["shape"], c, d), rc, {"f": "rdp", "t": t, "distance": d, "cost": c},
+                              cap, R(1, 1 << 30), 0))
+    return items
+
+
+def _cert_from_tables(c, cid):
+    """the certificate of a small case whose FULL tables are known (static self-test case, cross-check of the two validators)"""
+    S = c["S"]
+    pos = {v: j + 1 for j, v in enumerate(S)}
+    adj = [CLS.get(c["cls"][j][j + 1], 0) for j in range(len(S) - 1)]
+
+    def tab(p, q):
+        return CLS[c["cls"][p - 1][q - 1]], sorted(pos[v] for v in c["far"][p - 1][q - 1] if v in pos and p < pos[v] < q)
+
+    case, _ = _certify(cid, c["n"], S, tab, adj, 10 ** 9)
+    return case
+
+
+def _scale_selftests():
+    good = _cert_from_tables(static_cases.get("C04"), "static")
+    S = good["S"]
+    out = [(good, "ok")]
+    j = next(j for j in range(len(S) - 1) if S[j + 1] - S[j] > 1)
+    out.append((dict(good, adj=[1 if x == j else v for x, v in enumerate(good["adj"])]), "retained-segment-fits"))
+    out.append((dict(good, nodes=[good["nodes"][0][:5] + [0] + good["nodes"][0][6:]] + good["nodes"][1:]), "split-was-needed"))
+    out.append((dict(good, nodes=[good["nodes"][0][:6] + [[]]] + good["nodes"][1:]), "split-at-farthest"))
+    x = next(x for x, nd in enumerate(good["nodes"]) if nd[3] > 0 or nd[4] > 0)
+    nd = list(good["nodes"][x])
+    nd[3], nd[4] = nd[4], nd[3]                                             # children swapped: not a derivation
+    out.append((dict(good, nodes=good["nodes"][:x] + [nd] + good["nodes"][x + 1:]), "bad-certificate"))
+    return out
+
+
+def _warm():
+    """numba compiles the metric kernels once, in the parent; the forked recording workers inherit the compiled code"""
+    P = np.column_stack([np.arange(8.0), [9.0, 7.0, 6.0, 3.0, 2.5, 2.0, 1.8, 1.7]])
+    for c in simpl.COSTS:
+        for d in simpl.DISTANCES:
+            simpl.call(P, {"f": "rdp", "t": 0.001, "distance": d, "cost": c})
+
+
+def _record_batch(b):
+    kind, payload = b
+    if kind == "scale":
+        return kind, _record_scale(payload)
+    return kind, [_record(it) for it in payload]
+
+
+class _Async:
+    """ctx.trace on a private copy of the counters, in a thread (the two validators run side by side); join() merges the
+    counters into ctx and returns the rejections (or re-raises)."""
+
+    def __init__(self, ctx, *a, **kw):
+        import copy
+        import threading
+        self.ctx, self.sub = ctx, copy.copy(ctx)
+        self.sub.states = self.sub.transitions = self.sub.traces = 0
+        self.sub.extra, self.sub.tlc_runs = {}, []
+        self.out = self.err = None
+
+        def work():
+            try:
+                self.out = self.sub.trace(*a, **kw)
+            except BaseException as ex:         # re-raised by join()
+                self.err = ex
+        self.th = threading.Thread(target=work)
+        self.th.start()
+
+    def join(self):
+        self.th.join()
+        c, s = self.ctx, self.sub
+        c.states += s.states
+        c.transitions += s.transitions
+        c.traces += s.traces
+        c.tlc_runs += s.tlc_runs
+        for k, v in s.extra.items():
+            c.extra[k] = c.extra.get(k, 0) + v
+        if self.err is not None:
+            raise self.err
+        return self.out
+
+
+def scale_trace(ctx, res, small_cases):
+    """starts Trace_ExplainScale on the scale cases + the cross-check certificates of small cases; -> (cases, meta, xcases, handle)"""
+    cases = [c for c, _ in res if c is not None]
+    meta = {c["id"]: m for c, m in res if c is not None}
+    # cross-check of the two validators: certificates of small cases (full tables) must get the verdict ExplainClause gives
+    xs = small_cases[:: max(1, len(small_cases) // (300 if ctx.quick else 1500))]
+    xcases = [x for x in (_cert_from_tables(c, "x-" + c["id"]) for c in xs) if x is not None]
+    allc = cases + xcases
+    runs = 3 if ctx.quick else 8
+    h = _Async(ctx, "Trace_ExplainScale", allc, selftest=_scale_selftests(), chunk=max(8, -(-(len(allc) + 5) // runs)), procs=runs)
+    return cases, meta, xcases, h
+
+
+def scale_evidence(ctx, res):
+    agg = {"calls": len(res), "validated": 0, "not_validated": {}, "sizes": sorted({m["n"] for _, m in res}),
+           "shapes": {}, "max_retained": 0, "max_pending": 0, "pending_over_128": 0, "pending_over_1024": 0,
+           "nodes_checked": 0, "open_nodes": 0, "tie_nodes": 0, "harvested_tie_calls": 0, "longest_judged_range": 0}
+    for c, m in res:
+        if c is None:
+            agg["not_validated"][m["stats"]] = agg["not_validated"].get(m["stats"], 0) + 1
+            continue
+        st = m["stats"]
+        S = c["S"]
+        agg["validated"] += 1
+        agg["shapes"][m["recipe"]["shape"]] = agg["shapes"].get(m["recipe"]["shape"], 0) + 1
+        agg["max_retained"] = max(agg["max_retained"], st["k"])
+        agg["max_pending"] = max(agg["max_pending"], st["pending"])
+        agg["pending_over_128"] += st["pending"] > 128
+        agg["pending_over_1024"] += st["pending"] > 1024
+        agg["nodes_checked"] += st["expanded"]
+        agg["open_nodes"] += st["open"]
+        agg["tie_nodes"] += st["ties"]
+        agg["harvested_tie_calls"] += "-h" in c["id"]
+        agg["longest_judged_range"] = max([agg["longest_judged_range"]] + [S[j + 1] - S[j] for j in range(len(S) - 1)]
+                                          + ([m["n"] - 1] if c["nodes"] else []))
+        nt = len(S) >= 3 and any(S[j + 1] - S[j] > 1 for j in range(len(S) - 1))
+        ctx.count((m["digest"], m["spec"]), nt)
+    ctx.extra["scale"] = agg
+    if agg["not_validated"]:
+        ctx.note("scale family: calls that were not judged (no well-formed reduction returned = C01's domain; search for a "
+                 "derivation among tied farthest points over budget): %s" % agg["not_validated"])
+    if any(k != "tie-search-budget" for k in agg["not_validated"]):
+        pass                                           # a library that does not return on long inputs: nothing to be vacuous about
+    elif agg["pending_over_128"] < 5 or agg["pending_over_1024"] < 1 or agg["longest_judged_range"] < 50000:
+        raise tlc.TLCFailure("C04 scale family is vacuous: %s" % agg)
+
+
 def run(ctx):
     ctx.rule = ("rdp.rdp on adversarial, grid, random and bundled-trace curves x 5 metrics x 2 distances x thresholds "
                 "(fixed and harvested from observed segment costs = exact ties); non-trivial: at least one interior "
-                "index retained (a split to explain) and at least one retained segment with interior points")
+                "index retained (a split to explain) and at least one retained segment with interior points. "
+                "Scale family: rdp.rdp on deep one-sided nestings (growing staircases and their mirrors, zigzags, spike trains, "
+                "sawteeth: 130 .. 10^4 ranges pending at once) and on long production-like curves (2^10 .. 10^5 points) x 5 metrics "
+                "x 2 distances x tight / loose / harvested-tie thresholds x 3 abscissa layouts, judged by Trace_ExplainScale from a "
+                "certificate with sparse tables (all adjacent pairs + the ranges of the derivation)")
     ctx.assumptions += numeric.ASSUMPTIONS + [
         "cost classes are bit-exact comparisons of the metric primitive (linear_fit.<metric>_points, chosen by name) on the identical sub-array with t (R2 inverted); "
         "NaN costs are class 'nan' (either side allowed)",
         "far sets: interior indices within max(1e-9*max, 1e-12*scale, eps) of the maximal library distance",
-        "results with more than %d retained points are not validated (table size)" % KMAX]
+        "results with more than %d retained points are not validated (table size) in the small families" % KMAX,
+        "scale family: Trace_ExplainScale checks a certificate found by a complete search in the harness (same semantics as "
+        "ExplainClause; agreement of the two validators is cross-checked on small cases in every run); certificates beyond "
+        "%d / %d (quick / thorough) nodes keep their largest ranges and leave the rest open (leaves still judged)"
+        % (NODECAP_QUICK, NODECAP_THOROUGH)]
     ctx.mc("Rdp", "MC_Rdp", need_actions=("RdpAccept", "RdpSplit", "Finish"))
+    _warm()
     items = inputs(ctx)
-    rec = [r for r in par.pmap(_record, items) if r is not None]
+    sitems = sorted(scale_items(ctx), key=lambda it: -it[1]["n"])          # drawn after the small families: their stream is unchanged
+    batches = [("scale", it) for it in sitems] + [("small", items[j:j + 40]) for j in range(0, len(items), 40)]
+    out = par.pmap(_record_batch, batches, chunksize=1)
+    rec = [r for kind, rs in out if kind == "small" for r in rs if r is not None]
+    sres = [r for kind, rs in out if kind == "scale" for r in rs]
     cases = [c for c, _ in rec]
     meta = {c["id"]: m for c, m in rec}
-    rej = ctx.trace("Trace_Simplify", cases, selftest=_selftests(), chunk=600)
+    scases, smeta, xcases, handle = scale_trace(ctx, sres, cases)
+    try:
+        rej = ctx.trace("Trace_Simplify", cases, selftest=_selftests(), chunk=600)
+    finally:
+        srej = handle.join()
     for c in cases:
         S = c["S"]
         nt = len(S) >= 3 and any(S[j + 1] - S[j] > 1 for j in range(len(S) - 1))
@@ -118,10 +641,43 @@ def run(ctx):
         ctx.violation(vs[0][0], {"kind": "T", "points": m["points"], "spec": m["spec"]}, {"verdict": vs[0]})
     big = max(cases, key=lambda c: len(c["S"]) if len(c["S"]) <= 8 else 0)
     ctx.sample({"binding": "T", "call": meta[big["id"]], "case": big})
+    # ---- scale family
+    bad = [(cid, vs) for cid, vs in srej.items() if any(v[0] == "bad-certificate" for v in vs)]
+    if bad:
+        raise tlc.TLCFailure("C04 scale: the harness built a malformed certificate: %s" % bad[:3])
+    for x in xcases:                                   # the two validators must agree on the small cases
+        if (x["id"] in srej) != (x["id"][2:] in rej):
+            raise tlc.TLCFailure("C04: Trace_Simplify and Trace_ExplainScale disagree on %s: %s / %s" %
+                                 (x["id"][2:], rej.get(x["id"][2:]), srej.get(x["id"])))
+    ctx.extra["validators_cross_checked_on"] = len(xcases)
+    for cid, vs in srej.items():
+        if cid.startswith("x-"):
+            continue
+        m = smeta[cid]
+        for v in vs:                                   # one report per clause the result breaks
+            ctx.violation(v[0], {"kind": "T-scale", "recipe": m["recipe"], "spec": m["spec"], "digest": m["digest"]},
+                          {"verdict": v, "n": m["n"], "stats": m["stats"]})
+    if scases:
+        deep = max(scases, key=lambda c: smeta[c["id"]]["stats"]["pending"])
+        m = smeta[deep["id"]]
+        ctx.sample({"binding": "T-scale", "recipe": m["recipe"], "spec": m["spec"], "n": m["n"], "stats": m["stats"], "case": deep})
+    scale_evidence(ctx, sres)
 
 
 def replay(ctx, obj):
     c = obj["case"]
+    if c.get("kind") == "T-scale":
+        P = build(c["recipe"])
+        if _digest(P) != c.get("digest"):
+            print("replay: the recipe no longer builds the recorded curve (digest differs); replaying what it builds now")
+        case, st = _one_scale("replay", P, c["spec"], NODECAP_THOROUGH)
+        if case is None:
+            print("replay: call not validated (%s; C01's domain)" % st)
+            return
+        for cid, vs in ctx.trace("Trace_ExplainScale", [case]).items():
+            for v in vs:
+                ctx.violation(v[0], c, {"verdict": v, "n": len(P), "stats": st})
+        return
     r = _record(("replay", c["points"], c["spec"]))
     if r is None:
         print("replay: call did not return a reduction (C01's domain)")
